@@ -86,7 +86,10 @@ def run(chk, profiles, total_quick=6000, total_thorough=60000, variant="hook", e
     chk.cov["trusted_base"] = TRUSTED
     chk.assumptions += ["scenarios are valid programs: every command evaluates its documented precondition with the public queries and "
                         "is skipped when it does not hold (durations >= 0, release only by the holder, amounts within 1..capacity, signals "
-                        "other than SUCCESS for interrupts/timers/resume, targets started and unfinished, handles issued by that queue; a variable holds one kind of handle: 0-3 timers, 4-7 priority-queue handles, 8-9 user events — VarsOk / CmdValid of the theorems)"]
+                        "other than SUCCESS for interrupts/timers/resume, targets started and unfinished, handles issued by that queue; a variable holds one kind of handle: 0-3 timers, 4-7 priority-queue handles, 8-9 user events — VarsOk / CmdValid of the theorems)",
+                        "pattern cancel (upcancel): the order in which cmb_event_pattern_cancel cancels its matches is unspecified (heap-array order in the "
+                        "library, pending-list order in the model); generated scenarios with upcancel keep it unobservable (tools/gen_sim.py: either all "
+                        "process priorities pairwise different and fixed, or at most one awaited user event at any time)"]
     tgen_ok = True
     try:
         gen_orders.run(impl)
